@@ -38,6 +38,19 @@ CHECKS['C13'] = ('4.C13', 'For grammars with the state<> rule and rules whose ac
                  'the hooks, success() (exactly once, iff matched [and actions enabled for the action-based variants], with the cursor after the match and the outer state) and destruction is proved '
                  'equal to the reference protocol over symbolic sub-rules, including failure, exceptions and the rules following the scope.')
 
+CHECKS['C18'] = ('4.C18', 'The real limit_depth<N>/input_with_depth guard on a recursive rule and the real limit_bytes<N> guard on a rule starting at an arbitrary offset are proved, over symbolic '
+                 'sub-rules that observe depth and visible input end and may fail, succeed or throw, to behave as the reference: depth = guarded levels entered, error exactly beyond N, window = '
+                 'min(N, remaining) bytes from the start of the guarded match, counter and input end restored in every outcome.')
+CHECKS['C02'] = ('4.C02', 'Rewind contract of every rule with its own match() (core, convenience, contrib incl. rematch/minus, try_catch, rep_one_min_max, predicates, http chunk matchers): local failure under '
+                 'rewind_mode::required restores byte/line/column, look-ahead never moves the cursor, success never moves it backwards — over symbolic sub-rules that leave garbage on failure, without '
+                 'actions and with void apply/apply0 actions attached (which shifts the rewinding responsibility into match()).')
+CHECKS['C03'] = ('4.C03', 'Every input-dereferencing leaf (all peek families through their rules, string/istring/bytes, five eol policies, integer matchers, rep_one_min_max, predicates, scanning rules, '
+                 'rematch sub-inputs) is run on an exact-size heap object of symbolic length where CBMC flags any access outside [begin,end), and as a window inside a larger object where bytes beyond '
+                 'the logical end are proved not to influence result or consumption.')
+CHECKS['C10'] = ('4.C10', 'Every single-unit rule instantiation (ASCII classes, one/range/ranges, string/istring, RFC 5234 core, UTF-8/16/32, uint8..64 both byte orders, masks) is proved on fully symbolic '
+                 'bytes with symbolic length (all truncations) to match iff an independently written specification (documented byte sets, Unicode Table 3-7, surrogate arithmetic, shift/or) matches and to '
+                 'consume exactly the specified length; complete over the data, template constants are a representative boundary set.')
+
 NOT_YET = {}
 
 
